@@ -46,6 +46,10 @@ func tierOf(prop, tier string) tierCfg {
 	if tier == "thorough" {
 		c.WallS = 900
 	}
+	if _, e2 := otherEngines[prop]; e2 {
+		// E2 runs are tiny (tens of scheduler steps): cap the batch so that the worker logs stay manageable
+		c.MaxRuns = 3_000_000
+	}
 	if v := envInt("VERIF_WALL_S", 0); v > 0 {
 		c.WallS = v
 	}
@@ -984,7 +988,11 @@ func TestDriver(t *testing.T) {
 		fmt.Println(l)
 	}
 	if len(a.machinery) > 0 {
-		for _, m := range a.machinery {
+		for i, m := range a.machinery {
+			if i == 8 {
+				fmt.Printf("MACHINERY: ... and %d more\n", len(a.machinery)-8)
+				break
+			}
 			fmt.Println("MACHINERY:", m)
 		}
 		status(2)
